@@ -25,12 +25,14 @@ type Gen struct {
 	cs          *ContractSet
 	leafCache   map[string][]Leaf
 	leafSorts   map[string]Sort
+	leafRef     map[string]bool
 	tags        map[string]int
 	tagTypes    []types.Type
 	funcs       map[string]*ssa.Function // contract name -> function
 	trustedUsed map[string]bool
 	uses        map[string]map[string]bool // caller contract -> callee contracts used
 	keywordSet  []string
+	ninfo       map[string]*nodeInfo
 	repo        string
 }
 
@@ -48,7 +50,7 @@ func Load(repo string) (*Gen, error) {
 	}
 	prog, spkgs := ssautil.AllPackages(pkgs, ssa.GlobalDebug)
 	prog.Build()
-	g := &Gen{prog: prog, pkgs: pkgs, spkgs: map[string]*ssa.Package{}, leafCache: map[string][]Leaf{}, leafSorts: map[string]Sort{},
+	g := &Gen{prog: prog, pkgs: pkgs, spkgs: map[string]*ssa.Package{}, leafCache: map[string][]Leaf{}, leafSorts: map[string]Sort{}, leafRef: map[string]bool{},
 		tags: map[string]int{}, funcs: map[string]*ssa.Function{}, trustedUsed: map[string]bool{}, uses: map[string]map[string]bool{}, repo: repo}
 	for _, sp := range spkgs {
 		if sp != nil {
@@ -315,6 +317,7 @@ func (g *Gen) Verify(c *Contract) (s *Session) {
 		fr.assumeTypeFacts(st, v, p.Type())
 		fx.penv[p.Name()] = TV{v, p.Type()}
 		fx.noteObj(v)
+		fx.noteNodeRefs(v, p.Type())
 		fr.names[p.Name()] = append(fr.names[p.Name()], p)
 	}
 	if fn.Signature.Recv() != nil && len(fn.Params) > 0 {
